@@ -13,7 +13,7 @@ RULE = ('one run = 1-3 connections (CONNECT tunnel, keep-alive forward HTTP, bui
         'of every recv/send the proxy performs on the client socket and the moment it ends the connection; '
         'non-trivial = some gap lies within 0.1 s of the threshold or a read pause with pending output exceeds '
         'the timeout; distinct = distinct event-log digests')
-PROBES = ['tunnel', 'keepalive', 'web', 'half_request', 'silent', 'chatty', 'slow_upstream', 'threaded', 'gap_just_below', 'gap_just_above',
+PROBES = ['front_tls', 'tunnel', 'keepalive', 'web', 'half_request', 'silent', 'chatty', 'slow_upstream', 'threaded', 'gap_just_below', 'gap_just_above',
           'pending_output_beyond_timeout', 'reaped', 'upstream_only_activity', 'multi_connection']
 COMPONENTS = {
     'real': ['proxy/http/handler.py (is_inactive, last_activity, threaded run loop)',
@@ -35,6 +35,16 @@ TIERS = {
 }
 STATE_MEASURE = 'distinct (role, mode, timeout, gap class sequence) tuples'
 SAFETY_TOL = 0.005
+
+
+_px: Dict[str, Any] = {}
+
+
+def setup_worker(job: Dict[str, Any]) -> None:
+    from ..tls import fixtures, origin_cert
+    px = fixtures(job['scratch'])
+    _px.update(px)
+    _px['front'] = origin_cert(px, 'proxy.example', 'good')     # the proxy's own TLS front (--cert-file / --key-file)
 
 
 def run_one(tape: Any, cfg: Dict[str, Any], forbid: FrozenSet[str] = frozenset()) -> Result:
@@ -61,6 +71,13 @@ def run_one(tape: Any, cfg: Dict[str, Any], forbid: FrozenSet[str] = frozenset()
         B = (0.025 + 0.1) if threaded else 1.5
         route = make_web_route_plugin(1, r'/web', lambda tg: b'web-reply:' + tg)
         opts = scen.proxy_opts(tape, 16)
+        # a TLS front: the handler then works on a wrapped connection object (created in initialize()); what counts as pending
+        # output and as client traffic must be read off that one
+        front_tls = g.feature('front_tls', 0.12)
+        if front_tls:
+            w.probe('front_tls')
+            opts.pop('client_recvbuf_size', None)
+            opts = dict(opts, cert_file=_px['front']['cert'], key_file=_px['front']['key'])
         flags = make_flags(threadless=not threaded, threaded=threaded, local_executor=1, timeout=T,
                            enable_web_server=True, plugins=[route], **opts)
         h: Any = L3(w, flags) if threaded else L1(w, flags)
@@ -76,6 +93,8 @@ def run_one(tape: Any, cfg: Dict[str, Any], forbid: FrozenSet[str] = frozenset()
                 role = 'tunnel'
             if role == 'slow_upstream' and not g.note('slow_upstream'):
                 role = 'tunnel'
+            if role == 'web' and front_tls:
+                role = 'tunnel'     # (the generated route is registered for plain http only: over TLS it would be a 404 and a close)
             w.probe(role)
             ip = '10.0.1.%d' % (k + 1)
             cap_c = [4096, 1024, 64][tape.draw(3, 'capc')]      # a read pause moves 4 x cap_c bytes, possibly 16 at a time
@@ -83,6 +102,9 @@ def run_one(tape: Any, cfg: Dict[str, Any], forbid: FrozenSet[str] = frozenset()
             c: Dict[str, Any] = {'k': k, 'role': role, 'ip': ip, 't_connect': t, 'b': None, 'pz_since': 0.0,
                                  'ended': None, 'gaps': []}
             script: List[Any] = [('at', t), ('connect',)] if t else [('connect',)]
+            if front_tls:
+                import ssl
+                script += [('tls_client', ssl.create_default_context(cafile=_px['pub_cert']), 'proxy.example'), ('wait_tls',)]
             oscript: List[Any] = []
             if role in ('tunnel', 'chatty', 'slow_upstream'):
                 req = b'CONNECT %s:443 HTTP/1.1\r\nHost: %s:443\r\n\r\n' % (ip.encode(), ip.encode())
@@ -146,7 +168,7 @@ def run_one(tape: Any, cfg: Dict[str, Any], forbid: FrozenSet[str] = frozenset()
                             w.probe('pending_output_beyond_timeout')
                             nontrivial = True
                         script += [('at', t), ('pause_read',), ('at', t + pl), ('resume_read',)]
-                        oscript += [('at', t + 0.01), ('send', b'P' * (cap_c * 4 + 17), 'burst')]
+                        oscript += [('at', t + 0.01), ('send', b'P' * ((cap_c * 4 + 17) if not front_tls else 40000), 'burst')]
                         t += pl
                 elif role == 'keepalive':
                     req = b'GET http://%s/y%d HTTP/1.1\r\nHost: %s\r\n\r\n' % (ip.encode(), e, ip.encode())
@@ -210,6 +232,8 @@ def run_one(tape: Any, cfg: Dict[str, Any], forbid: FrozenSet[str] = frozenset()
             b = c['b']
             io = b.io_times
             for i in range(len(io) - 1, -1, -1):
+                if front_tls and io[i][1] == 'send' and io[i][2] < 64 and w.now - io[i][0] < 0.001:
+                    continue        # the TLS close_notify the proxy writes as part of closing is not client traffic
                 if io[i][2] > 0:
                     return max(io[i][0], c['t_accept'])
             return c['t_accept']
@@ -235,7 +259,9 @@ def run_one(tape: Any, cfg: Dict[str, Any], forbid: FrozenSet[str] = frozenset()
             return max(0, consumed - sent)
 
         def hook(sel: Any) -> None:
-            if w.failures:
+            # (with a TLS front the bytes on the client socket are records, not payload: 'pending' is then only a lower bound,
+            # good for the safety checks at the moment of a close, not for deciding that a connection should have been reaped)
+            if w.failures or front_tls:
                 return
             now = w.now
             for c in conns:
@@ -257,6 +283,8 @@ def run_one(tape: Any, cfg: Dict[str, Any], forbid: FrozenSet[str] = frozenset()
             scen.executor_check(w, h)
         if not w.failures and not w.hung:
             for c in conns:
+                if c['b'] is not None and c['ended'] is None and front_tls:
+                    continue
                 if c['b'] is not None and c['ended'] is None:
                     w.fail('not_reaped', c['role'], 'connection %d still open at the end of the run (last client-side I/O at '
                            '%.3f, now %.3f, timeout %s)' % (c['k'], last_io(c), w.now, T))
